@@ -155,8 +155,12 @@ def should_strip_fragment(fragment):
 
 
 def normalize_hostname(hostname, normalize_amp=True):
-    hostname = hostname.strip().lower()
+    # NOTE: same steps in the same order as normalize_url: control characters
+    # go before the surrounding whitespace, and punycode is decoded before
+    # the irrelevant labels are looked for ("xn--amp-caf-hya.fr" is "amp-café.fr")
     hostname = CONTROL_CHARS_RE.sub("", hostname)
+    hostname = hostname.strip().lower()
+    hostname = decode_punycode_hostname(hostname)
 
     pattern = IRRELEVANT_SUBDOMAIN_AMP_RE if normalize_amp else IRRELEVANT_SUBDOMAIN_RE
 
@@ -164,8 +168,6 @@ def normalize_hostname(hostname, normalize_amp=True):
 
     if normalize_amp and hostname.startswith("amp-"):
         hostname = hostname[4:]
-
-    hostname = decode_punycode_hostname(hostname)
 
     return hostname
 
